@@ -64,46 +64,59 @@ func concReport(c *mon.Ctx, what, bad string) {
 func concSighash(legacy bool) func(c *mon.Ctx, in *concIn) {
 	return func(c *mon.Ctx, in *concIn) {
 		r := prng.New(in.Seed, "conc-sighash", 0)
-		s := gen.RandShape(r, gen.ShapeOpts{MinIns: 2, MaxIns: 5, MaxOuts: 4, ScriptLens: []int{0, 1, 25, 80}})
-		for i := range s.Ins {
-			s.Ins[i].PrevScriptNil = false
-			if len(s.Ins[i].TxID) != 32 {
-				return
-			}
-		}
-		tx := s.BuildShared()
-		m := shModelTx(s)
 		types := shHashTypes(!legacy)
 		type job struct {
+			tx   *bt.Tx
 			idx  int
 			ht   byte
 			want [32]byte
 		}
 		var jobs []job
-		for k := 0; k < 12; k++ {
-			j := job{idx: r.Intn(len(s.Ins)), ht: prng.Pick(r, types)}
-			var err error
-			if legacy {
-				j.want, err = refsighash.LegacyDigest(m, j.idx, s.Ins[j.idx].PrevScript, uint32(j.ht))
-			} else {
-				j.want, err = refsighash.ForkIDDigest(m, j.idx, s.Ins[j.idx].PrevScript, s.Ins[j.idx].PrevSats, uint32(j.ht))
+		var txs []*bt.Tx
+		var befores [][]byte
+		// one small transaction shared by all goroutines and two larger ones
+		// (16..20 inputs): readers of one value, and independent values in parallel
+		for t := 0; t < 3; t++ {
+			o := gen.ShapeOpts{MinIns: 2, MaxIns: 5, MaxOuts: 4, ScriptLens: []int{0, 1, 25, 80}}
+			if t > 0 {
+				o.MinIns, o.MaxIns = 16, 20
 			}
-			if err != nil {
-				return
+			s := gen.RandShape(r, o)
+			for i := range s.Ins {
+				s.Ins[i].PrevScriptNil = false
+				if len(s.Ins[i].TxID) != 32 {
+					return
+				}
 			}
-			jobs = append(jobs, j)
+			tx := s.BuildShared()
+			m := shModelTx(s)
+			for k := 0; k < 6; k++ {
+				j := job{tx: tx, idx: r.Intn(len(s.Ins)), ht: prng.Pick(r, types)}
+				var err error
+				if legacy {
+					j.want, err = refsighash.LegacyDigest(m, j.idx, s.Ins[j.idx].PrevScript, uint32(j.ht))
+				} else {
+					j.want, err = refsighash.ForkIDDigest(m, j.idx, s.Ins[j.idx].PrevScript, s.Ins[j.idx].PrevSats, uint32(j.ht))
+				}
+				if err != nil {
+					return
+				}
+				jobs = append(jobs, j)
+			}
+			txs, befores = append(txs, tx), append(befores, tx.ExtendedBytes())
 		}
-		before := tx.ExtendedBytes()
 		bad := mon.Concurrently(concG, concRounds, func(g, k int) string {
 			j := jobs[(g*7+k)%len(jobs)]
-			got, err := tx.CalcInputSignatureHash(uint32(j.idx), sighash.Flag(j.ht))
+			got, err := j.tx.CalcInputSignatureHash(uint32(j.idx), sighash.Flag(j.ht))
 			if err != nil || !bytes.Equal(got, j.want[:]) {
-				return fmt.Sprintf("CalcInputSignatureHash(input %d, type %#x) = %x, %v; reference %x; tx %s", j.idx, j.ht, got, err, j.want, hexShort(before))
+				return fmt.Sprintf("CalcInputSignatureHash(input %d of %d, type %#x) = %x, %v; reference %x", j.idx, len(j.tx.Inputs), j.ht, got, err, j.want)
 			}
 			return ""
 		})
-		if bad == "" && !bytes.Equal(tx.ExtendedBytes(), before) {
-			bad = "the transaction changed: " + hexShort(tx.ExtendedBytes()) + " was " + hexShort(before)
+		for t := range txs {
+			if bad == "" && !bytes.Equal(txs[t].ExtendedBytes(), befores[t]) {
+				bad = "a transaction changed: " + hexShort(txs[t].ExtendedBytes()) + " was " + hexShort(befores[t])
+			}
 		}
 		concReport(c, "CalcInputSignatureHash", bad)
 	}
